@@ -50,7 +50,7 @@ LeafArgs(kw) ==
                     -> {JInt(1), JFlt(3, 2)}
     [] kw = "multipleOf" -> {JInt(2), JFlt(1, 2), JFlt(3, 2)}
     [] kw \in {"minLength", "maxLength", "minItems", "maxItems",
-               "minProperties", "maxProperties"} -> {1, 2}
+               "minProperties", "maxProperties"} -> {1, 2} \cup (IF Rich THEN {0} ELSE {})
     [] kw = "pattern" -> {"^a", "b$"}
     [] kw = "format"  -> {"date-time", "unknown"}
     [] kw = "uniqueItems" -> BOOLEAN
